@@ -22,7 +22,7 @@ RULE = ('file names = product of segment kinds {file names in root, subdir, ., .
         'from a path wildcard. Non-trivial = the name contains a dot-dot, an absolute prefix, a backslash or a sibling name; '
         'distinct = distinct (root spelling, filename).')
 PYOPT = {'quick': 1, 'thorough': 1}     # one unit of every kind is also served by an interpreter started with -O (assert statements compiled out)
-REQUIRED = ['units_run_under_python_-O', 'relative_root_after_chdir', 'head_requests', 'probes_after_serving_another_root', 'served_200', 'denied_403', 'missing_404', 'opens_observed', 'names_with_dotdot', 'names_with_backslash',
+REQUIRED = ['units_run_under_python_-O', 'names_of_more_than_64_segments', 'relative_root_after_chdir', 'head_requests', 'probes_after_serving_another_root', 'served_200', 'denied_403', 'missing_404', 'opens_observed', 'names_with_dotdot', 'names_with_backslash',
             'names_absolute', 'names_sibling_prefix', 'served_content_compared', 'via_wsgi']
 EXHAUSTIVE = {'quick': False, 'thorough': False,
               'quick_note': 'the product units enumerate the name product for <=2 segments completely', 'thorough_note': 'the product units enumerate the name product for <=3 segments completely'}
@@ -76,6 +76,11 @@ def names(maxseg, base):
                 body = sep.join(segs)
                 for lead in LEADS:
                     yield lead + body
+    # very many segments: fillers that cancel out, then a step out of the root (or a file inside it)
+    for count in (7, 31, 32, 33, 60, 63, 64, 65, 66, 100, 127, 128, 129, 300, 1025):
+        for filler in ('./', 'sub/../', '//', 'sub/deep/../../', 'nope/../'):
+            for tail in ('../top-secret.txt', '../www2/a.txt', '../www-private/secret.txt', 'a.txt', 'sub/b.txt', '../www/a.txt', '..'):
+                yield filler * count + tail
     # absolute prefixes followed by 0..2 segments
     for pre in abs_prefixes:
         for n in range(0, min(maxseg, 2) + 1):
@@ -96,6 +101,8 @@ def root_spellings(base):
 
 
 def classify(ctx, name):
+    if name.count('/') > 64:
+        ctx.count('names_of_more_than_64_segments')
     if '..' in name.replace('..hidden', ''):
         ctx.count('names_with_dotdot')
     if '\\' in name:
